@@ -64,21 +64,23 @@ where
     let orig = show(&addr);
     let storage = addr.into_storage();
     let (ptr, ptrlen) = unsafe { A::as_ptr(&storage) };
-    let size = size_of::<A::Storage>();
     let bytes = unsafe { std::slice::from_raw_parts(ptr.cast::<u8>(), ptrlen as usize) }.to_vec();
     // What the caller would hand to the kernel to be filled.
     let mut out: MaybeUninit<A::Storage> = MaybeUninit::uninit();
     let (mptr, mutlen) = unsafe { A::as_mut_ptr(&mut out) };
+    // The address structure is the `mutlen` bytes at the pointers (the storage may carry
+    // more, e.g. the length of a Unix address).
+    let size = mutlen as usize;
     let klen = klen.unwrap_or(ptrlen).min(mutlen);
     unsafe {
         // Junk everywhere, then the `klen` bytes the kernel writes.
         std::ptr::write_bytes(mptr.cast::<u8>(), 0xAA, size);
-        let all = std::slice::from_raw_parts((&raw const storage).cast::<u8>(), size);
+        let all = std::slice::from_raw_parts(ptr.cast::<u8>(), size);
         std::ptr::copy_nonoverlapping(all.as_ptr(), mptr.cast::<u8>(), klen as usize);
     }
     let back = unsafe { A::init(out, klen) };
-    // Print the whole storage (not only ptrlen bytes): padding is part of the contract.
-    let all = unsafe { std::slice::from_raw_parts((&raw const storage).cast::<u8>(), size) };
+    // Print the whole address structure (not only ptrlen bytes): padding is part of the contract.
+    let all = unsafe { std::slice::from_raw_parts(ptr.cast::<u8>(), size) };
     let _ = bytes;
     let back = show(&back);
     (
